@@ -857,7 +857,7 @@ def random_chain(shape, depth, rs):
     return tuple(ch), cur
 
 
-INT_VALUES = {"012": (0, 1, 2), "neg": (0, -1, 3)}
+INT_VALUES = {"012": (0, 1, 2), "neg": (0, -1, 3), "negonly": (0, -1, -2)}
 
 
 def encoding_work(tier):
@@ -888,7 +888,7 @@ def encoding_work(tier):
                 else:
                     stride = {8: 6, 6: 3 if len(shape) == 3 else 2}.get(size, 1) if len(chain) == full else 1
             else:
-                stride = {3: 2, 4: 5, 6: 10, 8: 40}[size] if big else {3: 1, 4: 4, 6: 9, 8: 36}[size]
+                stride = {3: 2, 4: 5, 6: 10, 8: 40}[size] if big else {3: 1, 4: 5, 6: 12, 8: 48}[size]
             exh = len(chain) <= 1 and size <= 4
             for ai, data in enumerate(arrays):
                 if (ai + ci + sd) % stride and 0 < sum(data) < size:
@@ -917,7 +917,7 @@ def encoding_work(tier):
             for ai, data in enumerate(arrays):
                 if (ai + ci + sd) % stride:
                     continue
-                vals = INT_VALUES["neg" if (ai + ci) % 3 == 0 else "012"]
+                vals = INT_VALUES["neg" if (ai + ci) % 3 == 0 else "negonly" if (ai + ci) % 6 == 1 else "012"]
                 data = tuple(vals[x] for x in data)
                 adt = adts[(ai + 2 * ci) % 4]
                 if adt == "uint8" and min(data) < 0:
@@ -1148,6 +1148,8 @@ HIST_STEPS = [
     {"op": "set", "M4": [[8, 0, 0], [0, 8, 0], [0, 0, 8]], "t4": [4, 4, 4]},
     {"op": "set", "M4": ROT_X5, "t4": [0, -3, 0]},
 ]
+AXIS_STEPS = [HIST_STEPS[2], HIST_STEPS[5], HIST_STEPS[6], HIST_STEPS[7],
+              {"op": "apply_transform", "Mi": [[1, 0, 0], [0, -1, 0], [0, 0, -1]], "t4": [0, 8, 0]}]
 HIST_READS = ["points", "volume", "points_to_indices", "is_filled", "bounds", "element_volume", "scale",
               "filled_count", "sparse_indices"]
 
@@ -1333,6 +1335,24 @@ def gen_grid_cases(chunk):
                         "bshape": [int(v) for v in back.shape], "back": [ints(b) for b in back.reshape((-1, 3))],
                         "fshape": [int(v) for v in filled.shape], "filled": ints(filled.reshape(-1))}
             add(base, off)
+        elif what == "strip":
+            # VoxelGrid.strip(): the encoding is cut to the bounding box of the filled cells and the
+            # translation moves with it, so that every filled cell stays where it was
+            _, name, M4, t4, shape, data, kind = item
+            arr = np.array(data, dtype=bool).reshape(shape)
+            base = {"fn": "grid_strip", "tf": name, "M4": [ints(r) for r in M4], "t4": ints(t4), "shape": list(shape),
+                    "data": list(data), "base": kind}
+
+            def strip():
+                g = voxel.VoxelGrid(make_base(enc, kind, arr), transform=mat4(M4, t4))
+                touch(g, "points")
+                g2 = g.strip()
+                T = finite(g.transform)
+                d = np.asarray(g.matrix)
+                return {"same_object": int(g2 is g), "rshape": [int(v) for v in d.shape], "rflat": ints(d),
+                        "rM4": [ints(row) for row in snap(T[:3, :3], 4)], "rt4": ints(snap(T[:3, 3], 4)),
+                        "points4": [ints(q) for q in snap(g.points, 4)]}
+            add(base, strip)
         elif what == "ops_maps":
             _, pitch4, origin4, shape = item
             idx = [list(t) for t in np.ndindex(*shape)] + [[-1, 0, 0], [0, shape[1], 0]]
@@ -1381,13 +1401,19 @@ def gen_grid_cases(chunk):
                 return r
             add(base, reload)
         elif what == "binvox_points":
-            _, shape, data, kind, M4, t4, order = item
+            _, shape, data, kind, M4, t4, order = item[:7]
+            extra = item[7] if len(item) > 7 else {}
+            hist, reads = extra.get("hist"), extra.get("reads", [])
             arr = np.array(data, dtype=bool).reshape(shape)
             base = {"fn": "grid_binvox_points", "shape": list(shape), "data": list(data), "base": kind,
                     "M4": [ints(r) for r in M4], "t4": list(t4), "axis_order": order}
+            if hist is not None:
+                base.update(hist=hist, reads_before=reads)
 
             def rtp():
                 g = voxel.VoxelGrid(make_base(enc, kind, arr), transform=mat4(M4, t4))
+                if hist is not None:
+                    run_hist(g, hist, reads)
                 g2 = trimesh.exchange.binvox.load_binvox(io.BytesIO(g.export(file_type="binvox", axis_order=order)),
                                                          axis_order=order)
                 pts = g2.indices_to_points(np.argwhere(np.asarray(g2.matrix)))
@@ -1458,6 +1484,14 @@ def grid_work(tier):
                     work.append(("volume", name, M4, t4, shape, data, BASES[(ti + di + 2) % 4], ex))
                     work.append(("off", name, M4, t4, shape, data, BASES[(ti + di + 3) % 4], D16[(ti + di + 1) % len(D16)],
                                  PFORMS[(ti + di) % 3], dict(ex, pick=di)))
+    # VoxelGrid.strip()
+    for ti, (name, M4, t4) in enumerate(tfs):
+        for shape in ((2, 2, 2), (3, 1, 2), (4, 3, 2)):
+            size = int(np.prod(shape))
+            for k in range(24 if big else 3):
+                data = tuple(int(x) for x in (rs.randint(0, 3, size=size) == 0))
+                if any(data):
+                    work.append(("strip", name, M4, t4, shape, data, BASES[(ti + k) % 4]))
     # voxel.ops: pitch and origin are optional
     for pitch4 in (None, 4, 2, 10):
         for origin4 in (None, [0, 0, 0], [3, -6, 1]):
@@ -1509,6 +1543,12 @@ def grid_work(tier):
                 M4 = np.diag([x * (L4 // max(n - 1, 1)) for x, n in zip(signs, shape)])
                 work.append(("binvox_points", shape, data, "dense" if shape == (2, 2, 2) else BASES[k % 4], M4, [4, 0, -8],
                              ("xzy", "xyz")[(ai + k // 4) % 2]))
+                if k % 3 == 0:
+                    # exported after the transform was edited in place (axis-aligned edits that keep
+                    # pitch * (n - 1) equal on all axes), with reads in between
+                    hist = [dict(AXIS_STEPS[j]) for j in rs.randint(0, len(AXIS_STEPS), size=int(rs.randint(1, 3)))]
+                    work.append(("binvox_points", shape, data, BASES[(k // 3) % 4], M4, [4, 0, -8], ("xzy", "xyz")[k % 2],
+                                 {"hist": hist, "reads": HIST_READS if k % 2 else []}))
     return work
 
 
@@ -1900,7 +1940,7 @@ def main(argv):
         raise MachineryError(f"only {narrow_records} records with narrowly stored run-length data")
     # families added by the audit round: none of them may come out (nearly) empty
     for fam, need in FAMILY_MIN.items():
-        if fam_count.get(fam, 0) < need * (4 if tier == "thorough" else 1):
+        if fam_count.get(fam, 0) < need:
             raise MachineryError(f"family {fam}: only {fam_count.get(fam, 0)} records (need {need}); all: {fam_count}")
     cov = {
         "states": states, "transitions": states,
@@ -1943,12 +1983,12 @@ def main(argv):
 
 
 FAMILY_MIN = {
-    "enc_chain_ge3": 1200, "enc_integer_chain_ge2": 900, "enc_integer_negative_values": 500, "enc_1x1x1": 100,
+    "enc_chain_ge3": 1200, "enc_integer_chain_ge2": 900, "enc_integer_negative_values": 300, "enc_1x1x1": 100,
     "enc_index_forms": 1000, "enc_out_of_range_reads": 3000, "enc_negative_index_reads": 2000, "enc_numpy_integer_flip": 150,
     "fn_negative_index": 3000,
     "grid_rotated_transform": 300, "grid_history": 500, "grid_offcentre": 500, "grid_unit_axis": 300,
-    "grid_single_or_block_points": 300, "grid_binvox_unit_axis": 200, "grid_binvox_mirrored_noncubic": 150,
-    "grid_maps_other_base": 600, "ops_optional_arguments": 12,
+    "grid_single_or_block_points": 300, "grid_binvox_unit_axis": 200, "grid_binvox_mirrored_noncubic": 100, "grid_binvox_after_edit": 100,
+    "grid_maps_other_base": 600, "ops_optional_arguments": 8, "grid_strip": 200,
 }
 
 
@@ -1988,10 +2028,15 @@ def families_of(c):
             out.append("grid_unit_axis")
         if fn == "grid_maps" and c.get("base", "dense") != "dense":
             out.append("grid_maps_other_base")
+    elif fn == "grid_strip":
+        out.append("grid_strip")
     elif fn == "grid_binvox" and 1 in c["shape"]:
         out.append("grid_binvox_unit_axis")
-    elif fn == "grid_binvox_points" and c["shape"] != [2, 2, 2] and any(c["M4"][a][a] < 0 for a in range(3)):
-        out.append("grid_binvox_mirrored_noncubic")
+    elif fn == "grid_binvox_points":
+        if c["shape"] != [2, 2, 2] and any(c["M4"][a][a] < 0 for a in range(3)):
+            out.append("grid_binvox_mirrored_noncubic")
+        if "hist" in c:
+            out.append("grid_binvox_after_edit")
     elif fn == "ops_maps" and not (c["has_pitch"] and c["has_origin"]):
         out.append("ops_optional_arguments")
     return out
